@@ -289,6 +289,23 @@ def _check_extensions(self):
                 if "was not found" not in out:
                     self.fail("bad-path-accepted", {"path": p, "observed": out[:200]})
                     return n
+    # AKAI: a good path with ONE token followed by two or three colons (only the single partition colon is a spelling of
+    # a listed name; a colon cannot be part of an AKAI name)
+    if self.akai:
+        for tokens, base in self.nodes:
+            for k in range(len(tokens)):
+                for colons in ("::", ":::"):
+                    t = list(tokens)
+                    t[k] = t[k].rstrip().rstrip(":") + colons
+                    for p in ("/".join(t), "\\".join(t) + "/"):
+                        st, out = self.ls(p)
+                        n += 1
+                        if st != "ok":
+                            self.fail("bad-path-" + ("raised:" + exc_sig(out) if st == "exc" else "hang"), {"path": p, "observed": repr(out)[:200]})
+                            return n
+                        if "was not found" not in out:
+                            self.fail("bad-path-accepted", {"path": p, "observed": out[:200]})
+                            return n
     # a good path with ONE separator doubled by a different or equal character (an empty component): '//', '/\', '\/'
     # -- the doubled backslash is the only two-character separator
     for tokens, base in self.nodes:
@@ -355,7 +372,7 @@ class Check(CheckBase):
             "item or be rejected; other paths: all token sequences of length 1 (quick) / <=2 (thorough) over {real names, names "
             "with one character changed/added/removed, '', ' ', '..', ':', non-ASCII, '.', 'A:', 'a'} with each separator must "
             "print 'was not found' and raise nothing; every good path (any depth, also items that are not directories) continued by "
-            "one more token that names nothing there likewise, and every good path with one separator doubled ('//', '/\\', '\\/': an "
+            "one more token that names nothing there likewise, (AKAI) every good path with one token followed by two or three colons, and every good path with one separator doubled ('//', '/\\', '\\/': an "
             "empty component). non-trivial = trees with nodes at depth >= 2")
     assumptions = ["items with a blank printed name are not required to be addressable",
                    "paths that only differ from a good path by AKAI case / partition colon may resolve or be rejected"]
